@@ -375,12 +375,12 @@ class ProcCtx:
         return verdict
 
     # -- obligations ----------------------------------------------------------
-    def check_obligations(self, q_ir, r2, kinds=None, assume_safe_p=True, skip_kinds=("unwind", "window_overhang", "alloc_extent"), check_view=True):
+    def check_obligations(self, q_ir, r2, kinds=None, assume_safe_p=True, skip_kinds=("unwind", "window_overhang", "alloc_extent"), check_view=True, extra_assume=()):
         """returns list of (Obl, cex, desc) for violated+replayed obligations, and count inconclusive"""
         obls = [o for o in r2.obls if o.kind not in skip_kinds and (kinds is None or o.kind in kinds)]
         if not obls:
             return [], 0, 0
-        base = list(self.safe_p) if assume_safe_p else []
+        base = (list(self.safe_p) if assume_safe_p else []) + list(extra_assume)
         out = []
         inconc = 0
         # first one query for all; only split when not unsat
